@@ -9,7 +9,8 @@ from ..common import Report, pmap
 from ..e2e import base_scenario, directed
 
 FAMILY = r"^files\.(counts_sum|reference|time|records|pvars)|^output\.snap"
-DRIVERS = {"e2e-records": ("harness.e2e", "run_e2e", "LadimTrace", FAMILY)}
+DRIVERS = {"e2e-records": ("harness.e2e", "run_e2e", "LadimTrace", FAMILY),
+           "e2e-records-after-restart": ("harness.checks.c08", "restarted_only", "LadimTrace", FAMILY)}
 
 
 def scenarios(tier, seed):
@@ -25,6 +26,17 @@ def run(tier, seed):
     traces = pmap("harness.e2e", "run_e2e", scs)
     rep.add_tv("e2e-records", "LadimTrace", scs, traces, tlc.validate_traces("LadimTrace", traces, batch_events=1500), family=FAMILY)
     rep.require_counts("e2e-records", {"records": 50})
+    # records written after a warm start are snapshots too (time coordinate = model time, not a counter started at the restart)
+    from .c08 import family as restart_family_sc
+    rng = random.Random(seed + 3)
+    fams = [restart_family_sc(rng) for _ in range(60 if tier == "thorough" else 16)]
+    res = pmap("harness.checks.c08", "run_family", fams)
+    rs, owners = [], []
+    for f, r in zip(fams, res):
+        for t in r["ladim"][1:]:
+            rs.append(t)
+            owners.append(f)
+    rep.add_tv("e2e-records-after-restart", "LadimTrace", owners, rs, tlc.validate_traces("LadimTrace", rs, batch_events=1500), family=FAMILY)
     rep.nontrivial = len({repr((s["rows"], s["kill"], s["ops"], s["numrec"], s["layout"])) for s in scs if s["kill"]})
     rep.rule = ("random end-to-end scenarios (two thirds with 2-5 scripted deaths and freezes, particle variables, sparse/dense, split files, "
                 "several reference times); non-trivial = distinct (release table, kills, period, split, layout) with at least one death")
